@@ -448,6 +448,10 @@ func runSite(mode string) sim.RigFunc {
 
 		// ---- requests ----
 		nconn := 1 + st.Draw(4)
+		if c.Tier == "thorough" {
+			nconn = 1 + st.Draw(7)
+			c.MaxSteps = 900
+		}
 		rid := 0
 		for ci := 0; ci < nconn; ci++ {
 			k := 1 + st.Draw(3)
